@@ -28,8 +28,7 @@ Detection power (scratch copy, one mutant at a time, POREPY_SRC=<copy>):
                                                                                caught by K2/K3 (S1, S2 still hold: still symmetric)
   M3 tpfa.py  ``n *= sgn`` dropped (half-transmissibility sign depends on face orientation)   caught by K1/K3/K2
   M4 tpfa.py  ``v_face[bnd.is_neu] = -1/t_full`` -> ``+1/t_full``             caught by K3 (boundary pressure trace)
-  M5 tpfa.py  flux built with ``ci_periodic`` rolled by one for negative-sign entries (wrong column) -- emulated by
-              ``sgn_periodic`` -> ``np.abs(sgn_periodic)``                     caught by S2, S1, S3
+  M5 tpfa.py  flux entries ``t[fi_periodic] * sgn_periodic`` -> ``* np.abs(sgn_periodic)`` (orientation sign lost)   caught by S2, S1, S3
 """
 from __future__ import annotations
 
